@@ -54,6 +54,18 @@ CHECKS = {
         note=TB + "Not modelled (named): closing a suspended contracted coroutine from another context; signals between "
              "two bytecodes of the library's own finally. repr/__bool__ faults are exercised in the checker cluster.",
         design="DESIGN.md section 6 C11"),
+    "C12": dict(
+        text="Theorems over Model/Conc.v (worlds of tasks/threads each with its own immutable value of the in-progress "
+             "variable; schedules that spawn, advance to the next suspension point, cancel): under every schedule a task "
+             "evolves by its own decisions only (C12_noninterference); a task that runs to completion shows exactly the "
+             "sequential behaviour of its call from the value its context held at creation (C12_sequential_verdict), "
+             "which is empty whenever the creator was not inside a check - also after it ran contracted code "
+             "(C12_creator_clean = C11_restore). Tie: real asyncio tasks (context copy / fresh Context) and real threads "
+             "(fresh / copy_context().run) behind a turnstile, model vs implementation and spec_C12 on the implementation.",
+        note=TB + "Trusted contextvars facts: a context is touched only by code running in it; a copy copies the mapping. "
+             "Partial (named): pre-emption of threads inside the library's own statements is not exhibited by the "
+             "turnstile; tasks spawned from inside a running check inherit that suspension by value (stated, not hidden).",
+        design="DESIGN.md section 6 C12"),
 }
 
 PENDING = "check under construction in this session (model and theorems not yet committed)"
